@@ -5,6 +5,7 @@
 (* the caller, Circuit.error, the blocks found locked afterwards, the value vector.       *)
 EXTENDS TraceLib
 ResetOnError == TRUE
+ZeroTimerGuarded == TRUE
 VARIABLES vals, dead, tid, l
 G == INSTANCE Guard
 vars == <<vals, dead>>
